@@ -261,8 +261,13 @@ func (p *proxy) ServeHTTP(w http.ResponseWriter, r *http.Request) {
 		}
 		w.Header().Add("transfer-encoding", "chunked")
 		w.WriteHeader(resp.StatusCode)
-		io.Copy(w, resp.Body)
+		_, err := io.Copy(w, resp.Body)
 		resp.Body.Close()
+		if err != nil {
+			// The client went away. The rest of the response (and its trailers)
+			// might still be being read from the agent, so do not touch them.
+			return
+		}
 		for name, vals := range resp.Trailer {
 			if isHopByHopHeader(name) {
 				continue
